@@ -548,8 +548,12 @@ const PATHS: &[&str] = &["/a", "/b", "/c", "/d", "/loop1", "/loop2", "/old", "/n
 
 fn example_json(rng: &mut Rng, url: &str, must_match: bool, unit_ids: Vec<String>) -> Value {
     let mut e = serde_json::Map::new();
+    // a few examples the request builder rejects (URL the URI parser refuses, method that is not a token):
+    // the analyses report them as errored examples, identically from an existing router and from scratch
+    let url = if rng.chance(1, 30) { format!("{url}`x") } else { url.to_string() };
     e.insert("url".into(), json!(url));
-    e.insert("method".into(), json!(*rng.pick(&[None, Some("GET"), Some("POST"), Some("PUT")])));
+    let method = if rng.chance(1, 30) { Some("BAD METHOD") } else { *rng.pick(&[None, Some("GET"), Some("POST"), Some("PUT")]) };
+    e.insert("method".into(), json!(method));
     if rng.chance(1, 3) {
         e.insert("headers".into(), json!([{"name": "X-A", "value": "Foo"}]));
     } else {
